@@ -20,6 +20,7 @@ from .builtin import TernaryFilteredExpression
 from .builtin.tags.case_tag import MultiExpressionBlockNode
 from .context import RenderContext
 from .token import is_lines_token
+from .token import is_raw_token
 from .token import is_tag_token
 
 if TYPE_CHECKING:
@@ -169,6 +170,8 @@ def _analyze(template: Template, *, include_partials: bool) -> TemplateAnalysis:
             tags[node.token.name].append(
                 Span(template_name, node.token.start, node.token.stop)
             )
+        elif is_raw_token(node.token):
+            tags["raw"].append(Span(template_name, node.token.start, node.token.stop))
 
         # Update variables from node.expressions()
         for expr in node.expressions():
@@ -255,6 +258,8 @@ async def _analyze_async(
             tags[node.token.name].append(
                 Span(template_name, node.token.start, node.token.stop)
             )
+        elif is_raw_token(node.token):
+            tags["raw"].append(Span(template_name, node.token.start, node.token.stop))
 
         # Update variables from node.expressions()
         for expr in node.expressions():
